@@ -1,8 +1,141 @@
 import Driver.Util
-open Lean
+import Driver.C11
+import Paroxy.Model.Process
+open Lean Paroxy Paroxy.DB Paroxy.Proc
 
 namespace Driver.C03
+open Driver.C11
 
-def handlers : List (String × Handler) := []
+/-- One distinct program text with the recorded behaviour of the engines on it (from a fresh parser
+and a fresh taxonomy). -/
+structure Rec where
+  parsed : Parsed
+  lines : Nat
+  regex : Except Proc.Exc (List Label)
+  /-- non-empty answers of SQLite, by query id -/
+  answers : List (DB.Name × List Label)
+  /-- final labels (names, in output order) — key of `assemble` -/
+  outNames : List DB.Name
+  taxa : List Taxon
+
+def getRec (j : Json) : Except String Rec := do
+  let kind ← getStr j "parsed"
+  let lines ← (← j.getObjVal? "lines").getNat?
+  let parsed ← match kind with
+    | "invalid" => do
+      let e ← getName (← j.getObjVal? "err")
+      pure (Parsed.invalid e)
+    | "empty" => pure Parsed.empty
+    | _ => do
+      let r ← getNames (← j.getObjVal? "reprs")
+      pure (Parsed.tree r)
+  let regex ← match j.getObjVal? "regex_exc" with
+    | .ok (Json.str e) => pure (Except.error ({ name := codesOf e } : Proc.Exc))
+    | _ => do
+      let ls ← getLabels (← j.getObjVal? "labels0")
+      pure (Except.ok ls)
+  let answers ← getDict getLabels (← j.getObjVal? "answers")
+  let outNames ← getNames (← j.getObjVal? "out_names")
+  let taxa ← getTaxa (← j.getObjVal? "taxa")
+  pure { parsed, lines, regex, answers, outNames, taxa }
+
+def isPrefix (a b : List Label) : Bool := a.length ≤ b.length && b.take a.length == a
+
+/-- The engines instantiated by the recorded answers. `derive` finds the program from the contents of
+`t` (which always begins with that program's regex labels). -/
+def mkEngines (queries : List (DB.Name × List DB.Name)) (recs : List Rec)
+    (taxonLike : List DB.Name) (compiled : List (DB.Name × List DB.Name)) : Engines :=
+  { queries := queries
+    derive := fun q rows _ =>
+      let cands := recs.filter fun r => match r.regex with
+        | .ok l0 => isPrefix l0 rows
+        | .error _ => false
+      let best := cands.foldl (fun (acc : Option Rec) r => match acc with
+        | none => some r
+        | some a =>
+          let la := match a.regex with | .ok l => l.length | .error _ => 0
+          let lr := match r.regex with | .ok l => l.length | .error _ => 0
+          if lr > la then some r else some a) none
+      match best with
+      | some r => (get? r.answers q).getD []
+      | none => []
+    looksLikeTaxon := fun l => taxonLike.contains l
+    compiled := fun l => (get? compiled l).getD []
+    assemble := fun rs =>
+      let names := rs.map (·.1.name)
+      match recs.find? (fun r => r.outNames == names) with
+      | some r => r.taxa
+      | none => [] }
+
+def progOfRec (r : Rec) : Program :=
+  { parsed := r.parsed, lines := r.lines, regexLabels := fun _ => r.regex }
+
+def tableNames (s : SqlState) : List DB.Name :=
+  (match s.t with | some _ => [[116]] | none => []) ++ s.physical.map fun e => [116, 95] ++ e.1
+
+/-- The list of tables after each `read` of the loop (state observable inside a call). -/
+def readTrace (E : Engines) (S : State) (p : Program) : List (List DB.Name) :=
+  match p.parsed with
+  | .tree reprs =>
+    match p.regexLabels (HashState.reset.callAll reprs).2 with
+    | .error _ => []
+    | .ok labels0 =>
+      match S.sql.create labels0 with
+      | .error _ => []
+      | .ok s1 =>
+        (List.range E.queries.length).map fun k =>
+          -- state after the `ensure` of query k (0-based): run k queries, then ensure the (k+1)-th
+          let (s2, _) := queryLoop E s1 (E.queries.take k) labels0
+          match E.queries[k]? with
+          | some (_, pre) => match s2.ensure pre with
+            | .ok s3 => tableNames s3
+            | .error _ => tableNames s2
+          | none => tableNames s2
+  | _ => []
+
+def jLabels (ls : List Label) : Json :=
+  jPairs (fun (s : List Span3) => Json.arr (s.map fun (x : Span3) =>
+    Json.arr #[jInt x.1, jInt x.2.1, jName x.2.2]).toArray) (ls.map fun l => (l.name, l.spans))
+
+/-- `c03.run`: a sequence of programs through ONE process state; per step the outputs and the state
+observables. -/
+def runH : Handler := fun j => do
+  let queries ← getDict getNames (← j.getObjVal? "queries")
+  let literal ← getDict getNames (← j.getObjVal? "literal")
+  let taxonLike ← getNames (← j.getObjVal? "taxon_like")
+  let compiled ← getDict getNames (← j.getObjVal? "compiled")
+  let recsJ ← getArr j "programs"
+  let recs ← recsJ.toList.mapM getRec
+  let seqJ ← getArr j "sequence"
+  let seq ← seqJ.toList.mapM fun x => x.getNat?
+  let trace ← (← j.getObjVal? "trace").getBool?
+  let E := mkEngines queries recs taxonLike compiled
+  let rec go (S : State) (is : List Nat) (acc : List Json) : List Json :=
+    match is with
+    | [] => acc.reverse
+    | i :: rest =>
+      match recs[i]? with
+      | none => acc.reverse
+      | some r =>
+        let p := progOfRec r
+        let tr := if trace then readTrace E S p else []
+        let (S', out) := step E S p
+        let outJ := match out with
+          | .error e => Json.mkObj [("exc", jName e.name)]
+          | .ok (ls, ts) => Json.mkObj [("labels", jLabels ls), ("taxa", jNames (ts.map (·.name)))]
+        let touched := match out with
+          | .ok (ls, _) => (ls.filterMap fun l => match get? S'.taxo.literal l.name with
+              | some v => some (l.name, v)
+              | none => none)
+          | .error _ => []
+        let stepJ := Json.mkObj [("out", outJ), ("hash_i", Json.num (JsonNumber.fromNat S'.hash.i)),
+          ("tables", jNames (tableNames S'.sql)),
+          ("read_trace", Json.arr (tr.map jNames).toArray),
+          ("memo_size", Json.num (JsonNumber.fromNat S'.taxo.memo.length)),
+          ("literal_touched", jPairs jNames touched)]
+        go S' rest (stepJ :: acc)
+  pure (Json.mkObj [("steps", Json.arr (go (init literal) seq []).toArray)])
+
+def handlers : List (String × Handler) := [("c03.run", runH)]
 
 end Driver.C03
